@@ -179,6 +179,14 @@ func (c *mtastsDelivery) CheckMX(ctx context.Context, mxLevel module.MXLevel, do
 	}
 	policy := policyI.(*mtasts.Policy)
 
+	// Policy.Match locates the first label of mx in the raw string but compares
+	// the normalized one; hand it a name for which both are the same (U-labels,
+	// lower case, no trailing dot) so that A-label MX names cannot make it slice
+	// out of range or compare the wrong suffix.
+	if normMX, err := dns.ForLookup(mx); err == nil {
+		mx = normMX
+	}
+
 	if !policy.Match(mx) {
 		if policy.Mode == mtasts.ModeEnforce {
 			return module.MXNone, &exterrors.SMTPError{
